@@ -171,7 +171,8 @@ theorem slice_level_no_over_read (bs junk junk' : Bytes) :
       = G.unmarshalValue GoCfg.amd64 { vis := bs, rest := junk' } := by
   rw [slice_level_refines GoCfg.amd64 rfl (by decide), slice_level_refines GoCfg.amd64 rfl (by decide)]
 
-/-- 12. FULL STATEMENT for the reader as it is: no panic on any platform. FALSE — -/
+/-- 12. FULL STATEMENT for the reader as it WAS before the repair e776a13 (`wide = false`: `validate` in `int`
+    arithmetic): no panic on any platform. FALSE — -/
 def C02_binary_any_platform : Prop :=
   ∀ (cfg : GoCfg), cfg.wide = false → 32 ≤ cfg.intBits → ∀ (bs junk : Bytes) (msg : String),
     G.unmarshalValue cfg { vis := bs, rest := junk } ≠ .panic msg
@@ -191,7 +192,7 @@ theorem C02_binary_any_platform_false : ¬ C02_binary_any_platform := by
   | err _ => rw [hr] at hp; cases hp
   | panic m => exact h GoCfg.i386 rfl (by decide) _ _ m hr
 
-/-- 13. the PARTIAL statement that holds of the reader as it is: every platform with `int` ≥ 34 bits. -/
+/-- 13. the PARTIAL statement that held of the unrepaired reader: every platform with `int` ≥ 34 bits. -/
 theorem C02_binary_partial (cfg : GoCfg) (hw : cfg.wide = false) (hb : 34 ≤ cfg.intBits) (bs junk : Bytes) :
     ∀ msg, G.unmarshalValue cfg { vis := bs, rest := junk } ≠ .panic msg := by
   rw [slice_level_refines cfg hw hb]
@@ -203,6 +204,24 @@ theorem wide_validate_any_platform (cfg : GoCfg) (hw : cfg.wide = true) (hb : 1 
     (hlen : bs.length < 2 ^ (cfg.intBits - 1)) :
     G.unmarshalValue cfg { vis := bs, rest := junk } = unmarshalValue bs :=
   (G.unmarshalValue_sim cfg _ (GoCfg.ok_wide cfg hw hb _ hlen)).eq (unmarshalValue_noPanic bs)
+
+/-- 14a. THE READER AS IT IS IN THE LIBRARY since its repair (ovh/kmip-go e776a13: `validate` compares the
+    declared length in 64 bits, i.e. `wide = true`; the engines `hostile` (phase arch32, a GOARCH=386 build) and
+    `wire`/`plan` tie this variant to the code): on EVERY platform no index or slice expression panics, -/
+theorem current_reader_no_panic (cfg : GoCfg) (hw : cfg.wide = true) (hb : 1 ≤ cfg.intBits) (bs junk : Bytes)
+    (hlen : bs.length < 2 ^ (cfg.intBits - 1)) :
+    ∀ msg, G.unmarshalValue cfg { vis := bs, rest := junk } ≠ .panic msg := by
+  rw [wide_validate_any_platform cfg hw hb bs junk hlen]
+  exact unmarshalValue_noPanic bs
+
+/-- 14b. — and the result does not depend on the memory that follows the input within its capacity. -/
+theorem current_reader_no_over_read (cfg : GoCfg) (hw : cfg.wide = true) (hb : 1 ≤ cfg.intBits)
+    (bs junk junk' : Bytes) (hlen : bs.length < 2 ^ (cfg.intBits - 1)) :
+    G.unmarshalValue cfg { vis := bs, rest := junk } = G.unmarshalValue cfg { vis := bs, rest := junk' } := by
+  rw [wide_validate_any_platform cfg hw hb bs junk hlen, wide_validate_any_platform cfg hw hb bs junk' hlen]
+
+/-- non-vacuity of 14a/14b: a 32-bit platform and the input on which the unrepaired reader panics. -/
+example : (8 : Nat) < 2 ^ (({ intBits := 32, wide := true } : GoCfg).intBits - 1) := by decide
 
 /-! ## Termination of the modelled loops: the fuel never decides -/
 
